@@ -118,14 +118,63 @@ def check(run):
                   'with exactly one packet queued (the hop was idle) a path from the enqueue reaches the end of incoming_packet without starting the sender', 'with size()==1 every path after the push starts the sender')
     # the serialisation time is rounded UP to the clock's resolution: truncation lets every packet leave a fraction of a tick
     # early, and over a backlog the fractions add up to more than the configured bandwidth
-    convs = [n_ for n_ in bs.all_nodes() if n_['k'] in ('cast', 'construct') and 't' in n_ and ('int64' in bs.ty(n_['t']) or bs.ty(n_['t']) in ('long', 'long long')) and is_node(n_.get('e') if n_['k'] == 'cast' else (n_.get('args') or [None])[0]) and
-             any(x['k'] == 'ref' and x.get('name') == 'nanoseconds_per_byte' or (x['k'] == 'member' and x.get('name') == 'm_bandwidth') for x in walk(n_.get('e') if n_['k'] == 'cast' else n_['args'][0]))]
+    def _defs(x):
+        x = q.strip_casts(x)
+        if is_node(x) and x['k'] == 'ref' and x.get('dk') == 'local':
+            return [e_ for _, e_ in q.local_defs(bs, x.get('did'))]
+        return None
+
+    def _mentions_rate(e_, depth=0):
+        for x in walk(e_):
+            if x['k'] == 'ref' and x.get('name') == 'nanoseconds_per_byte' or (x['k'] == 'member' and x.get('name') == 'm_bandwidth'):
+                return True
+            if depth < 4 and x['k'] == 'ref' and x.get('dk') == 'local' and any(_mentions_rate(d_, depth + 1) for d_ in _defs(x) or []):
+                return True
+        return False
+
+    def _rounded(e_, depth=0):
+        e_ = q.strip_casts(e_)
+        if is_node(e_) and e_['k'] == 'call' and (q.callee_name(e_) or '').split('::')[-1] in ('ceil', 'ceill', 'ceilf'):
+            return True
+        ds = _defs(e_) if is_node(e_) else None
+        return bool(ds) and depth < 4 and all(_rounded(d_, depth + 1) for d_ in ds)
+
+    def _bumped(conv, operand):
+        """the integer idiom: T = int(x); if (T < x) ++T;  (T a local, the test unguarded, nothing else in the branch)"""
+        tgt = None
+        for n_ in bs.all_nodes():
+            if n_['k'] == 'decl':
+                for v in n_['vars']:
+                    if v.get('init') is conv or (is_node(v.get('init')) and q.strip_casts(v['init']) is conv):
+                        tgt = v.get('did')
+            elif n_['k'] == 'bin' and n_['op'] == '=' and (n_['rhs'] is conv or q.strip_casts(n_['rhs']) is conv):
+                l_ = q.strip_casts(n_['lhs'])
+                tgt = l_.get('did') if is_node(l_) and l_['k'] == 'ref' else None
+        if tgt is None:
+            return False
+        is_t = lambda x: is_node(x) and is_node(q.strip_casts(x)) and q.strip_casts(x)['k'] == 'ref' and q.strip_casts(x).get('did') == tgt
+        for n_ in bs.all_nodes():
+            gkey = lambda x: sorted((a_.get('i'), p_) for a_, p_ in q.guards_at(bs, x))
+            if n_['k'] != 'if' or n_.get('else') is not None or gkey(n_) != gkey(conv):  # under the same conditions as the conversion
+                continue
+            c_ = q.cmp_atom(n_.get('cond'))
+            if not c_:
+                continue
+            lo, hi = (c_[1], c_[2]) if c_[0] == '<' else ((c_[2], c_[1]) if c_[0] == '>' else (None, None))
+            if lo is None or not is_t(lo) or not q.same_expr(bs, q.strip_casts(hi), q.strip_casts(operand)):
+                continue
+            body = [x for x in walk(n_['then']) if x['k'] in ('un', 'bin', 'call')]
+            if len(body) == 1 and ((body[0]['k'] == 'un' and '++' in body[0]['op'] and is_t(body[0]['e'])) or
+                                   (body[0]['k'] == 'bin' and body[0]['op'] == '+=' and is_t(body[0]['lhs']) and q.int_value(body[0]['rhs']) == 1)):
+                return True
+        return False
+    opnd = lambda n_: n_.get('e') if n_['k'] == 'cast' else (n_.get('args') or [None])[0]
+    convs = [n_ for n_ in bs.all_nodes() if n_['k'] in ('cast', 'construct') and 't' in n_ and ('int64' in bs.ty(n_['t']) or bs.ty(n_['t']) in ('long', 'long long')) and is_node(opnd(n_)) and _mentions_rate(opnd(n_))]
     if convs:
-        inner = [q.strip_casts(n_.get('e') if n_['k'] == 'cast' else n_['args'][0]) for n_ in convs]
-        up = all(is_node(e_) and e_['k'] == 'call' and (q.callee_name(e_) or '').split('::')[-1] in ('ceil', 'ceill', 'ceilf') for e_ in inner)
+        up = all(_rounded(opnd(n_)) or _bumped(n_, opnd(n_)) for n_ in convs)
         run.check(up, 'R5', 'serialisation-time-rounds-up', bs.norm, bs.loc(convs[0]),
                   'the serialisation time (size / bandwidth, a floating-point number of nanoseconds) is truncated to whole ticks: every packet leaves up to a tick early and the next one starts from that early instant, so a backlogged hop forwards more bytes per interval than bandwidth x interval + one packet (700 MB/s carrying 20-byte ACKs runs at 714 MB/s)',
-                  'converted through std::ceil')
+                  'converted through std::ceil (or truncated and bumped when below the exact value)')
     else:
         run.unrecognised('R5', 'serialisation-time-rounds-up', bs.norm, bs.loc(), 'no conversion of the floating-point serialisation time to integer ticks found in begin_send_next_packet (timing idiom changed)')
     cont = [c for c in ns.calls() if c.get('usr') == bs.usr]
@@ -255,6 +304,8 @@ def check(run):
             xs = q.strip_casts(x)
             if is_node(xs) and xs['k'] == 'ref' and xs.get('did') in csub:
                 stack.append(csub[xs['did']])
+            elif is_node(xs) and xs['k'] == 'ref' and xs.get('dk') == 'local':
+                stack.extend(e_ for _, e_ in q.local_defs(bs, xs.get('did')))  # a dependency rule: any definition counts
             from simlib import children
             stack.extend(children(x))
         run.check(found is not None, 'R4', 'serialisation-includes-overhead', bs.norm, bs.loc(a.node), 'serialisation time does not depend on payload + overhead of the packet: ' + rr[:100], 'multiplies by payload + overhead')
